@@ -19,6 +19,8 @@ pub const EPOLLOUT: u32 = 0x004;
 pub const EPOLLERR: u32 = 0x008;
 pub const EPOLLHUP: u32 = 0x010;
 pub const EPOLLRDHUP: u32 = 0x2000;
+pub const EPOLLONESHOT: u32 = 1 << 30;
+pub const EPOLLET: u32 = 1 << 31;
 
 /// system calls inside one library call beyond which the call is declared livelocked
 pub const SYSCALL_STORM: usize = 300_000;
@@ -111,6 +113,9 @@ pub struct Endpoint {
     pub nonblocking: bool,
     /// the handle (descriptor) of this endpoint is still open
     pub open: bool,
+    /// bumped whenever something happens that the kernel would call a wake-up on this endpoint
+    /// (data arrived, space freed, shutdown / close by the peer): edges for EPOLLET
+    pub activity: u64,
 }
 
 impl Endpoint {
@@ -122,6 +127,7 @@ impl Endpoint {
             err: None,
             nonblocking: false,
             open: true,
+            activity: 0,
         }
     }
 }
@@ -153,12 +159,15 @@ pub struct Listener {
     pub path: String,
     pub backlog: VecDeque<usize>,
     pub open: bool,
+    pub activity: u64,
 }
 
 #[derive(Debug, Default)]
 pub struct EpollObj {
     /// fd -> (interest, data); BTreeMap for deterministic iteration
     pub interest: BTreeMap<Fd, (u32, u64)>,
+    /// fd -> activity counter of the object when it was last reported (EPOLLET), u64::MAX = never
+    pub seen: BTreeMap<Fd, u64>,
     pub open: bool,
 }
 
@@ -167,6 +176,7 @@ pub struct EventObj {
     pub counter: u64,
     pub nonblocking: bool,
     pub refs: usize,
+    pub activity: u64,
 }
 
 pub struct World {
@@ -298,6 +308,7 @@ impl World {
             path: path.to_string(),
             backlog: VecDeque::new(),
             open: true,
+            activity: 0,
         });
         let fd = self.alloc_fd(FdObj::Listener(self.listeners.len() - 1));
         self.push_log(LogEntry::Bind { fd });
@@ -349,6 +360,7 @@ impl World {
         });
         let id = self.conns.len() - 1;
         self.listeners[lid].backlog.push_back(id);
+        self.listeners[lid].activity += 1;
         Ok(id)
     }
 
@@ -386,6 +398,7 @@ impl World {
         }
         let n = free.min(buf.len());
         peer.rx.extend(&buf[..n]);
+        peer.activity += 1;
         Ok(n)
     }
 
@@ -400,7 +413,10 @@ impl World {
         }
         if !me.rx.is_empty() {
             let n = max.min(me.rx.len());
-            return Ok(me.rx.drain(..n).collect());
+            let v: Vec<u8> = me.rx.drain(..n).collect();
+            // space was freed for the writer on the other side
+            _peer.activity += 1;
+            return Ok(v);
         }
         if let Some(e) = me.err.take() {
             return Err(e);
@@ -422,6 +438,8 @@ impl World {
             How::RdWr => SHUTDOWN_MASK,
         };
         me.shutdown |= mode;
+        me.activity += 1;
+        peer.activity += 1;
         if peer.open {
             let mut peer_mode = 0;
             if mode & RCV_SHUTDOWN != 0 {
@@ -444,6 +462,7 @@ impl World {
         let unread = !me.rx.is_empty();
         me.rx.clear();
         me.shutdown = SHUTDOWN_MASK;
+        peer.activity += 1;
         if peer.open {
             peer.shutdown = SHUTDOWN_MASK;
             if unread {
@@ -663,7 +682,7 @@ impl World {
 
     pub fn epoll_create(&mut self) -> Fd {
         self.n_syscalls += 1;
-        self.epolls.push(EpollObj { interest: BTreeMap::new(), open: true });
+        self.epolls.push(EpollObj { interest: BTreeMap::new(), seen: BTreeMap::new(), open: true });
         self.alloc_fd(FdObj::Epoll(self.epolls.len() - 1))
     }
 
@@ -689,16 +708,22 @@ impl World {
                         return Err(libc::EEXIST);
                     }
                     il.insert(fd, (events, data));
+                    self.epolls[ep].seen.remove(&fd);
                 }
                 // del
                 2 => {
                     if il.remove(&fd).is_none() {
                         return Err(libc::ENOENT);
                     }
+                    self.epolls[ep].seen.remove(&fd);
                 }
                 // mod
                 3 => match il.get_mut(&fd) {
-                    Some(e) => *e = (events, data),
+                    Some(e) => {
+                        *e = (events, data);
+                        // EPOLL_CTL_MOD re-arms edge-triggered and one-shot registrations
+                        self.epolls[ep].seen.remove(&fd);
+                    }
                     None => return Err(libc::ENOENT),
                 },
                 _ => return Err(libc::EINVAL),
@@ -747,13 +772,30 @@ impl World {
         }
     }
 
+    fn activity_of(&self, fd: Fd) -> u64 {
+        match self.obj(fd) {
+            Some(FdObj::Stream(c)) => self.conns[c].server.activity,
+            Some(FdObj::Listener(l)) => self.listeners[l].activity,
+            Some(FdObj::Event(e)) => self.events[e].activity,
+            _ => 0,
+        }
+    }
+
     fn epoll_ready_list(&self, ep: usize) -> Vec<(Fd, u32, u64)> {
         let mut v = Vec::new();
         for (&fd, &(interest, data)) in self.epolls[ep].interest.iter() {
-            let m = self.poll_fd(fd) & (interest | EPOLLERR | EPOLLHUP);
-            if m != 0 {
-                v.push((fd, m, data));
+            // a one-shot registration that already fired reports nothing until re-armed (interest cleared)
+            let m = self.poll_fd(fd) & ((interest & 0x3fff_ffff) | EPOLLERR | EPOLLHUP);
+            if m == 0 {
+                continue;
             }
+            if interest & EPOLLET != 0 {
+                // edge-triggered: only if something happened since it was last reported
+                if self.epolls[ep].seen.get(&fd) == Some(&self.activity_of(fd)) {
+                    continue;
+                }
+            }
+            v.push((fd, m, data));
         }
         v
     }
@@ -813,6 +855,18 @@ impl World {
             ready.sort_by_key(|r| self.obj_key(r.0));
         }
         ready.truncate(max);
+        for &(fd, _, _) in ready.iter() {
+            let interest = self.epolls[ep].interest.get(&fd).map(|e| e.0).unwrap_or(0);
+            if interest & EPOLLET != 0 {
+                let a = self.activity_of(fd);
+                self.epolls[ep].seen.insert(fd, a);
+            }
+            if interest & EPOLLONESHOT != 0 {
+                if let Some(e) = self.epolls[ep].interest.get_mut(&fd) {
+                    e.0 &= EPOLLET | EPOLLONESHOT;
+                }
+            }
+        }
         if self.cfg.log {
             let entry = ready
                 .iter()
@@ -834,7 +888,7 @@ impl World {
 
     pub fn eventfd_create(&mut self, nonblocking: bool) -> Fd {
         self.n_syscalls += 1;
-        self.events.push(EventObj { counter: 0, nonblocking, refs: 1 });
+        self.events.push(EventObj { counter: 0, nonblocking, refs: 1, activity: 0 });
         self.alloc_fd(FdObj::Event(self.events.len() - 1))
     }
 
@@ -855,6 +909,7 @@ impl World {
         match self.obj(fd) {
             Some(FdObj::Event(e)) => {
                 self.events[e].counter = self.events[e].counter.saturating_add(v);
+                self.events[e].activity += 1;
                 self.push_log(LogEntry::EventWrite { fd });
                 Ok(())
             }
